@@ -373,6 +373,15 @@ func c10Where(cs c10Case) string {
 		}
 		return "length-differs:between-lines"
 	}
+	// a `# pint ignore/begin` on a line strictly inside an ignore/begin block is an excluded line, but the reader
+	// keeps that comment visible to the YAML decoder (pinned by TestReadContent/21 and /23): one mechanism
+	for _, seq := range [][]string{cs.Seq, cs.SeqB} {
+		for i, l := range seq {
+			if i < len(cs.Mask) && cs.Mask[i] == "excluded" && lineHas(l, "ignore/begin") {
+				return "same-length:nested-ignore/begin-kept-visible"
+			}
+		}
+	}
 	if c10InsideScalar[cs.Base][cs.Gap] {
 		return "same-length:inside-multiline-scalar:" + c10Shape(cs)
 	}
